@@ -494,6 +494,29 @@ Record intent := {
   t_https : bool
 }.
 
+(** the exact round-trip condition (P_C32.uninline_inline_iff): after a '.', the next
+    character is neither '.' nor '-'; every valid DNS name satisfies it *)
+Fixpoint rt_ok (s : string) : bool :=
+  match s with
+  | EmptyString => true
+  | String c r =>
+      (if Ascii.eqb c dot
+       then match r with
+            | String d _ => negb (Ascii.eqb d dash) && negb (Ascii.eqb d dot)
+            | EmptyString => true
+            end
+       else true) && rt_ok r
+  end.
+
+(** the property speaks about valid DNS names: the round-trip condition holds and
+    every label has at most 63 characters.  For other strings in the place of a
+    DNSLink name only namespace, remainder, query and fragment are claimed. *)
+Definition in_scope (orc : oracle) (ns root : string) : bool :=
+  match ident_of orc ns root with
+  | IdMh _ => true
+  | IdName s => rt_ok s && forallb (fun l => Nat.leb (String.length l) max_label) (split dot s)
+  end.
+
 (** a label of the redirect host: a CID label must be a single DNS label of at
     most 63 characters; a name is either left as an FQDN or inlined into one label *)
 Definition label_ok (orc : oracle) (ns label : string) : bool :=
@@ -530,8 +553,10 @@ Definition spec_outcome (orc : oracle) (t : intent) (o : outcome) : bool :=
       match strip_suffix ("." ++ t_ns t ++ "." ++ t_gw t) host with
       | None => false
       | Some label =>
-          ident_equiv (ident_of orc (t_ns t) (t_root t)) (ident_of orc (t_ns t) label) &&
-          label_ok orc (t_ns t) label &&
+          (if in_scope orc (t_ns t) (t_root t)
+           then ident_equiv (ident_of orc (t_ns t) (t_root t)) (ident_of orc (t_ns t) label) &&
+                label_ok orc (t_ns t) label
+           else true) &&
           String.eqb (norm_rest path) (norm_rest (t_rest t)) &&
           String.eqb query (t_query t) && String.eqb frag (t_frag t) &&
           Bool.eqb https (t_https t)
@@ -540,7 +565,8 @@ Definition spec_outcome (orc : oracle) (t : intent) (o : outcome) : bool :=
       match splitn4 path with
       | Some (p0, ns, root, rest) =>
           String.eqb p0 "" && String.eqb ns (t_ns t) &&
-          ident_equiv (ident_of orc (t_ns t) (t_root t)) (ident_of orc ns root) &&
+          (if in_scope orc (t_ns t) (t_root t)
+           then ident_equiv (ident_of orc (t_ns t) (t_root t)) (ident_of orc ns root) else true) &&
           String.eqb (norm_rest rest) (norm_rest (t_rest t)) &&
           String.eqb query (t_query t)
       | None => false
@@ -618,20 +644,6 @@ Inductive case :=
 Definition label_valid (l : string) : bool :=
   negb (String.eqb l "") && negb (starts_with "-" l) && negb (starts_with "-" (rev_string l)).
 Definition valid_dns (s : string) : bool := forallb label_valid (split dot s).
-
-(** the exact round-trip condition (P_C32.uninline_inline_iff): after a '.', the next
-    character is neither '.' nor '-'; every valid DNS name satisfies it *)
-Fixpoint rt_ok (s : string) : bool :=
-  match s with
-  | EmptyString => true
-  | String c r =>
-      (if Ascii.eqb c dot
-       then match r with
-            | String d _ => negb (Ascii.eqb d dash) && negb (Ascii.eqb d dot)
-            | EmptyString => true
-            end
-       else true) && rt_ok r
-  end.
 
 Definition spec_str (s : string) (il : option string) (un_inl : string) : bool :=
   match il with
